@@ -13,7 +13,7 @@ import (
 	"sync/atomic"
 	"time"
 
-	_ "github.com/mattn/go-sqlite3"
+	sqlite3 "github.com/mattn/go-sqlite3"
 )
 
 // A database/sql driver that wraps sqlite3 and is registered under the name pop
@@ -60,7 +60,15 @@ func (c *sqlController) begin(failAt, crashAt int) {
 // beginBusy: the k-th statement fails once the way SQLite reports a lock conflict (transaction layers retry on it)
 func (c *sqlController) beginBusy(failAt int) {
 	c.mu.Lock()
-	c.enabled, c.seq, c.log, c.failAt, c.crashAt, c.failAll, c.failErr = true, 0, nil, failAt, 0, false, errors.New("database is locked")
+	c.enabled, c.seq, c.log, c.failAt, c.crashAt, c.failAll, c.failErr = true, 0, nil, failAt, 0, false, sqlite3.Error{Code: sqlite3.ErrBusy}
+	c.mu.Unlock()
+}
+
+// beginLocked: the k-th statement fails once with SQLite's "database table is locked" (SQLITE_LOCKED), which the error
+// translation of the persistence layer reports as a serialisation conflict (sqlcon.ErrConcurrentUpdate)
+func (c *sqlController) beginLocked(failAt int) {
+	c.mu.Lock()
+	c.enabled, c.seq, c.log, c.failAt, c.crashAt, c.failAll, c.failErr = true, 0, nil, failAt, 0, false, sqlite3.Error{Code: sqlite3.ErrLocked}
 	c.mu.Unlock()
 }
 
